@@ -10,6 +10,7 @@ CONSTANTS
   MaxRules = 2
   MaxStatus = 2
   MaxRuns = 1
+  MaxReent = 0
   RulesInRun = TRUE
   Export = TRUE
   Variant = "asRequired"
